@@ -6,7 +6,7 @@
 From Coq Require Import List NArith ZArith Arith Bool Lia.
 From RecordUpdate Require Import RecordUpdate.
 From Iodine Require Import Generated.SrcConsts Base Codec CodecProofs Hostname DnsName DnsMsg Domain Server
-  ServerFrame ServerRefine ServerDedupProofs.
+  ServerRings ServerRefine ServerDedupProofs.
 Import ListNotations.
 Local Open Scope N_scope.
 
